@@ -74,6 +74,23 @@ Section Proofs.
     intros Hpos. rewrite <- jsa_center_is, jsi_center_is by assumption. reflexivity.
   Qed.
 
+  (* the same with the guards under which the quotients MEAN something: each reference value (the optimised setup's value at its
+     own centre) is not 0 -- at a zero reference the implementation returns x/0 (inf or NaN) and Coq's total division would make the
+     unguarded equations hold for the wrong reason *)
+  Theorem normalised_def_guarded s j so nf ws wi :
+    new s = Ok j -> try_as_optimum R_ops K minpos op oi s = Ok (so, nf) ->
+    let '(w0s, w0i) := center so in
+    (jsa_of so w0s w0i <> 0%C ->
+       jsa_normalized jsa_raw norm_jsi j ws wi = Cdiv (jsa_of s ws wi) (RtoC (Cmod (jsa_of so w0s w0i)))) /\
+    (0 <= norm_jsi so w0s w0i -> jsi_of so w0s w0i <> 0 ->
+       jsi_normalized jsa_raw norm_jsi j ws wi = jsi_of s ws wi / jsi_of so w0s w0i) /\
+    (singles_of so w0s w0i <> 0 ->
+       jsi_singles_normalized singles_raw norm_singles j ws wi = singles_of s ws wi / singles_of so w0s w0i).
+  Proof.
+    intros Hn Ho. pose proof (normalised_def s j so nf ws wi Hn Ho) as H. destruct (center so) as [w0s w0i].
+    destruct H as (H1 & H2 & H3). repeat split; auto.
+  Qed.
+
   (* the *_range variants are the pointwise accessors mapped over the grid *)
   Theorem ranges_pointwise j grid :
     jsa_normalized_range jsa_raw norm_jsi j grid = map (fun p => jsa_normalized jsa_raw norm_jsi j (fst p) (snd p)) grid /\
@@ -95,6 +112,17 @@ Section Proofs.
     intros H. inversion H. subst l. destruct (new_ok _ _ Hn) as (so & nf & Ho & Hs & _ & Hc2).
     exists ji, so, nf. repeat split; auto.
     apply map_ext. intros p. unfold jsi_singles_normalized, jsi_singles. rewrite Hs, Hc2. reflexivity.
+  Qed.
+
+  Theorem idler_singles_def_guarded j grid l :
+    jsi_singles_idler_normalized_range K minpos op oi jsa_raw singles_raw norm_jsi norm_singles freq pm_inv j grid = Ok l ->
+    exists ji so nf, new (swap_signal_idler pm_inv (js_spdc j)) = Ok ji /\
+      try_as_optimum R_ops K minpos op oi (swap_signal_idler pm_inv (js_spdc j)) = Ok (so, nf) /\
+      (singles_of so (fst (center so)) (snd (center so)) <> 0 ->
+       l = map (fun p => singles_of (swap_signal_idler pm_inv (js_spdc j)) (snd p) (fst p) /
+                         singles_of so (fst (center so)) (snd (center so))) grid).
+  Proof.
+    intros H. destruct (idler_singles_def j grid l H) as (ji & so & nf & H1 & H2 & H3). exists ji, so, nf. repeat split; auto.
   Qed.
 
   (* unit at the centre of a setup that optimisation leaves unchanged (by C20_idempotent: every optimised setup) *)
@@ -146,6 +174,12 @@ Section Proofs.
     rewrite Href.
     destruct (Req_EM_T (Cmod (jsa_raw s ws wi) ^ 2) 0); unfold Rdiv; ring.
   Qed.
+  Theorem sweep_guarded base setups opt nf :
+    try_as_optimum R_ops K minpos op oi base = Ok (opt, nf) ->
+    jsi_of opt (fst (center opt)) (snd (center opt)) <> 0 ->
+    jsi_values_normalized K minpos op oi jsa_raw norm_jsi freq base setups =
+    Ok (map (fun v => v / jsi_of opt (fst (center opt)) (snd (center opt))) (jsi_values jsa_raw norm_jsi freq setups)).
+  Proof. intros Ho _. apply (sweep base setups opt nf). exact Ho. Qed.
 End Proofs.
 
 (* FULL STRENGTH for the code as it is now: EVERY optimised setup has unit normalised values at its centre *)
